@@ -169,7 +169,7 @@ def run_emu(sim, params):
     net = simnet.SimNet(k, ["R", "C"], latency=0.0005)
     simnet.install(nfc, net)
     net.start()
-    nmaxb = sim.wpick("emu.nmaxb", [(2, 1), (2, 2), (2, 3), (2, 10), (2, 16), (1, 17), (1, 40)])
+    nmaxb = sim.wpick("emu.nmaxb", [(2, 1), (2, 2), (2, 3), (2, 10), (2, 16), (1, 17), (1, 40), (1, 260)])
     nbr = sim.pick("emu.nbr", [1, 2, 4, 12, 15])
     nbw = sim.pick("emu.nbw", [1, 2, 8, 13])
     cap = nmaxb * 16
